@@ -138,8 +138,12 @@ def main(args):
     # Convert the specified commit to a hash, if needed.
     commit = None
     if args.this_commit or args.at_least is not None:
+        # N.B. Peel the symbol to a commit: an annotated tag would otherwise
+        # resolve to the hash of the tag object, not of the commit it names.
         parsed_commit = ctx.git.rev_parse(
-            args.at_least if args.at_least is not None else "HEAD"
+            "{}^{{commit}}".format(
+                args.at_least if args.at_least is not None else "HEAD"
+            )
         )
         if parsed_commit is None:
             raise InvalidCommitSymbol(symbol=args.at_least)
